@@ -21,6 +21,10 @@ import os as _os
 _PCXX = _os.path.join(_os.path.dirname(_os.path.abspath(__file__)), "pcxx.py")
 HARNESSES = [{"name": "main", "src": "harness.cpp", "compiler": _PCXX,
               "flags": ["-O0", "-DTETL_ENABLE_CONTRACT_CHECKS=1", "-DC12_NPARTS=4"], "args": ["--nofork"]},
+             # the double SOURCE representation (ops d_*) is a separate build of the same file: a library change that
+             # breaks mixed int/double code at compile time then still leaves the main variant running
+             {"name": "fsrc", "src": "harness.cpp", "compiler": _PCXX,
+              "flags": ["-O0", "-DTETL_ENABLE_CONTRACT_CHECKS=1", "-DC12_NPARTS=4", "-DC12_FSRC=1"], "args": ["--nofork"]},
              # thorough only: UBSan in trap mode, one supervised child (a trap = "crash 4"); executes the "ub_*" cases
              # (inputs on which the model says Ub) and re-runs every in-domain case under the sanitizer
              {"name": "ubsan", "src": "harness.cpp", "compiler": _PCXX, "thorough_only": True,
@@ -244,6 +248,18 @@ def float_source_cases(P, rng, quick):
     pairs = [(x, y) for x in xa for y in ys] + [(float(P.cd), float(P.cn)), (-float(P.cd) / 2, -float(P.cn) / 2)]
     for (x, y) in pairs:
         out.append(f"{h('d_arith')} {dbits(x)} {dbits(y)}")
+    # mixed representations: an int64 count with a double count / a double scalar
+    cs = [0, 1, -1, 7, -1500, 86400, 2**53 + 1, -(2**62), rng.randint(-10**9, 10**9)]
+    ym = [1.0, -0.5, 2.5, 1.0 / 3, 1000.0, -7.25, 1e-9, 2.0**53, rng.uniform(-1e6, 1e6)]
+    if quick:
+        cs, ym = cs[::2], ym[::2] + [ym[1]]
+    for c in cs:
+        for y in ym:
+            out.append(f"{h('d_mixed')} {c} {dbits(y)}")
+            if c != 0 and P.i == P.j:
+                out.append(f"{h('d_scalar')} {c} {dbits(y)}")
+    for t in (1, -2, 1000):   # equal values c * n1/d1 == y * n2/d2
+        out.append(f"{h('d_mixed')} {t * P.cd} {dbits(float(t * P.cn))}")
     return out
 
 
